@@ -128,6 +128,10 @@ def directed_histories(tier: str):
                          + frames(2, 2))
             hists.append([single("A", 1), {"k": "claim", "src": 2, "name": n1}, single("A", 2), {"k": "window"}, single("A", 1),
                           {"k": "claim", "src": 1, "name": n2}, single("B", 1), single("A", 2)])
+    # a source that never claims, after the discovery window has passed: every one of its messages is returned, the first like
+    # the tenth, single frames and a fast-packet message alike
+    hists.append([single("A", 1), {"k": "window"}, single("A", 2), single("A", 2), single("B", 2), single("A", 1), single("A", 2)]
+                 + frames(2, 1) + [single("B", 2), single("A", 1)] + frames(1, 2))
     cfgs = []
     for mm, mf, mi in (("none", [], []), ("exclude", ["m1"], []), ("exclude", ["m2"], []), ("include", ["m1"], []), ("include", ["m2"], []),
                        # both lists at once: a manufacturer on both, on one of them only, on none
